@@ -88,7 +88,8 @@ CHECKS = {
     category="model_checking", design_ref="DESIGN.md section 6 C16",
     text="TLC explores every interleaving of the steps of 2 (quick) / 3 (thorough) API calls sharing the global tables and checks "
          "GlobalsFrozen, ResultIsFunctionOfArgs and termination; a pool of ~60-150 API calls (all formats, all operations, "
-         "conversions, failing calls) gets reference outcome digests from one fresh interpreter per call; seeded permutations "
+         "conversions, failing calls, and the four operations with the format guessed from one shared file name, incl. names that "
+         "match two formats of different capabilities) gets reference outcome digests from one fresh interpreter per call; seeded permutations "
          "with repetitions in one interpreter (tables digested after every call) and 2..16-thread runs incl. forced two-thread "
          "alternation at open/write/read/close are validated against the specification: outcome = reference, tables unchanged.",
     note="all module-level dict/list/tuple/scalar attributes of every iodata module are digested; warnings-module state is not a listed table",
@@ -164,7 +165,10 @@ CHECKS = {
          "(AtomOrbitals.tla: the cells of the loaded coefficient matrix on which each printed expansion coefficient must sit; "
          "its filling-loop machine is model-checked and the cells found for tagged coefficients are validated); QCSchema.tla states where "
          "the loader must put the value of every key of a molecule document (attribute, extra, pass-through) and which omissions "
-         "are errors or warnings, and TLC validates the placement observed for every generated key subset.",
+         "are errors or warnings, and TLC validates the placement observed for every generated key subset. CubeData.tla gives the "
+         "data block of a cube file as a stream cut freely into lines and the reader's refill/take word cursor as a machine "
+         "(model-checked: InOrder, NoStarve, Complete); every (shape, cut) of streams of <=6 (thorough <=8) numbers is exported, "
+         "rendered, loaded, and TLC validates the stream position found on every cell.",
     note="the program-output renderers are transcriptions of sample outputs (no published column specification); WFN has no rendered counterpart here (C01 compares corpus WFN/WFX/FCHK files with independent readers); molden/molekel are rendered in C05",
     technique="TLA+ layout tables (Layouts.tla) exported by TLC drive an independent writer; TLC validates relation descriptors of loaded objects"),
  "C04": dict(
